@@ -10,6 +10,8 @@ CLAIMED = {
              note="spin loops unrolled once (twice thorough), liveness under fairness outside; DiskCacher torn files (zlib/C I/O) not encoded - only its control flow on an enumerated fault position"),
  'C20': dict(design='C20', text="InteractionsEncoder.encode executed on symbolic integer features; every output entry is a z3 polynomial and is matched one-to-one with the reference monomials by z3-decided polynomial identities valid for all integers; structure (term list, lengths, dense/sparse/string/scalar/None kinds, encoder re-use across calls) enumerated within bounds.",
              note="degree<=4, length<=4 quick (5,5 thorough); absent namespaces and repeated identical terms outside the claim"),
+ 'C01': dict(design='C01', text="The real in-process Experiment.run is compared with an in-process emulation of worker execution assembled only from coba's own stages (MakeTasks, ChunkTasks with a z3-integer maxtasksperchunk, ProcessFilter/ProcessTasks on pickled chunks in a reset context, TransactionEncode/Decode/Result) under solver-enumerated arrival orders of worker outputs, for 9 programs (shared chunk/cache prefixes, shuffle fan-out, stateful/PMF/kwargs learners, SequentialCB/RejectionCB/custom evaluators, tuple lists with shared objects) and two seeds; real spawn-based multi-process runs must equal both.",
+             note="finite configuration/schedule enumeration (no value reasoning); real OS schedules only through 2 (quick) / 10 (thorough) real runs", technique="bounded symbolic execution (symx/z3) used to enumerate the configuration and arrival-order space exhaustively over the real pipeline stages; translation validation of the emulation against real multi-process runs"),
  'C05': dict(design='C05', text="CobaRandom executed from an arbitrary symbolic generator state: the LCG step is proved a bijection on all 2^30 states (bit-vectors), uniforms are exact dyadic reals, randint/randints/shuffle/choice/choicew/gauss contracts and instance/module/stdlib interleavings are z3 queries over all states or over an arbitrary grid-valued uniform stream; random(min,max) is decided bit-exactly in QF_FP by a z3||cvc5 portfolio.",
              note="stubs: int() in coba.random identity on proxies; libm by contract; arbitrary-stream stub justified by the bijection obligation; seed=None and |bounds|>2^20 outside", engine='symx + z3||cvc5 FP lemmas'),
  'C06': dict(design='C06', text="The real SequentialCB.evaluate (SafeLearner, Finalize, BatchSafe, OpeRewards IPS, Unbatch, reward classes) runs on environments with symbolic contexts, rewards, logged rewards/probabilities and extra fields against a recording learner double whose picks are solver-enumerated and whose probabilities are symbolic; the full call trace and every yielded row are compared with the statement for all learn x eval x record-set x shape combinations, incl. rejection of environments lacking required fields, varying action sets and PMF-answering learners.",
